@@ -67,6 +67,13 @@ def find_anchors():
         lines = open(path, newline='').read().splitlines()
         for pat, act in pats:
             hits = [i + 1 for i, l in enumerate(lines) if re.search(pat, l)]
+            if len(hits) != 1 and act == ('apiCheck',):
+                # the guard test may be spelled differently (De Morgan, extra locals): the `if` statements of errors.api_entry
+                # whose test reads the thread-local guard
+                import ast
+                tree = ast.parse('\n'.join(lines))
+                hits = sorted({n.lineno for f in ast.walk(tree) if isinstance(f, ast.FunctionDef) and f.name == 'api_entry'
+                               for n in ast.walk(f) if isinstance(n, ast.If) and '_api_entered' in ast.dump(n.test)})[:1]
             if len(hits) != 1:
                 raise RuntimeError(f'C20 harness: source anchor {act} matches {len(hits)} lines of {path}; the tracer tables '
                                    f'in harness/props/c20.py have to follow the implementation')
